@@ -358,6 +358,18 @@ def srcvCore (cap : Nat) (junk : UInt8) (lg : Srcv) (n szxU m : Nat) (data : Byt
       | some b => srcvDecide { lg with recv := rec', totalLen := tl, body := some b } m chunk
     else srcvDecide { lg with recv := rec' } m chunk
 
+/-- "locate the lg_srcv" / "Allocate lg_srcv to use for tracking" -/
+def srcvLocate (maxBlk : Nat) (st : Option Srcv) (num szx : Nat) (size1 : Option Nat) : Srcv :=
+  match st with
+  | some s => s
+  | none => { recv := [], totalLen := (match size1 with | some t => t | none => 0), body := none,
+              szx := if num = 0 ∧ maxBlk ≠ 0 ∧ maxBlk < szx then maxBlk else szx }
+
+/-- fix 0d17941: a block that still uses a larger size covers several blocks of the tracked size -/
+def srcvConv (cap : Nat) (junk : UInt8) (lg : Srcv) (num m szx : Nat) (data : Bytes) : Option Srcv × SrcvOut :=
+  if szx > lg.szx then srcvCore cap junk lg ((num * 2 ^ (szx - lg.szx)) % 2 ^ 32) lg.szx m data (num * 2 ^ (szx + 4))
+  else srcvCore cap junk lg num szx m data (num * 2 ^ (szx + 4))
+
 /-- One Block1 request datagram `(num, m, szx, payload, size1)` arriving at the server for an existing or new
 `lg_srcv` (`st = none`: not yet allocated) in COAP_BLOCK_SINGLE_BODY mode, Block1 without BERT/Q-Block;
 `maxBlk` = COAP_BLOCK_MAX_SIZE_GET(block_mode).  Transcribes "if (length > block.chunk_size)" … "give_app_data" of
@@ -369,12 +381,6 @@ def srcvStep (cap : Nat) (junk : UInt8) (maxBlk : Nat) (st : Option Srcv) (num m
   if num = 0 ∧ m = 0 then (st, .deliver payload payload.length)    -- "Not blocked, or a single block": call_app_handler
   else if ¬ (payload.length > chunk0) ∧ m = 1 ∧ payload.length ≠ chunk0 then (st, .undersized)
   else
-    let lg : Srcv := match st with
-      | some s => s
-      | none => { recv := [], totalLen := (match size1 with | some t => t | none => 0), body := none,
-                  szx := if num = 0 ∧ maxBlk ≠ 0 ∧ maxBlk < szx then maxBlk else szx }
-    -- a block that still uses a larger size covers several blocks of the tracked size
-    if szx > lg.szx then srcvCore cap junk lg ((num * 2 ^ (szx - lg.szx)) % 2 ^ 32) lg.szx m data (num * chunk0)
-    else srcvCore cap junk lg num szx m data (num * chunk0)
+    srcvConv cap junk (srcvLocate maxBlk st num szx size1) num m szx data
 
 end Coap.Block
